@@ -141,7 +141,7 @@ Definition winv (s : sstate) : Prop :=
   match s with (first, prev, t, ri, st) => 0 <= ri /\ -1 <= prev < t /\ 0 <= t /\ (first = true -> prev = -1 /\ t = 0) /\ st = target prev end.
 Definition s_prev (s : sstate) : Z := match s with (_, prev, _, _, _) => prev end.
 
-Lemma window_steps : forall f s tr sf, winv s -> steps f gw D s = Some (tr, sf) ->
+Lemma window_steps D' : forall f s tr sf, winv s -> steps f gw D' s = Some (tr, sf) ->
   winv sf /\ (forall e, In e tr -> snd e = target (fst e) /\ s_prev s < fst e <= s_prev sf) /\
   (forall x, (x = ts \/ x = te) -> s_prev s < x <= s_prev sf -> In x (map fst tr)).
 Proof.
@@ -152,16 +152,16 @@ Proof.
   pose proof (Z.mod_pos_bound (t1 + hs) hs Hhs) as Hm.
   assert (Hinv' : winv (false, t1, t1 + hs - (t1 + hs) mod hs, ri', target t1)).
   { unfold winv. split; [exact Hri'|]. split; [lia|]. split; [lia|]. split; [discriminate|reflexivity]. }
-  destruct (D <? t1 + hs - (t1 + hs) mod hs).
+  destruct (D' <? t1 + hs - (t1 + hs) mod hs).
   - injection H as <- <-. split; [exact Hinv'|]. cbn [s_prev]. split.
     + intros e [<-|[]]. cbn [fst snd]. split; [reflexivity|lia].
     + intros x Hx Hr. left. cbn [fst]. destruct Hx as [->| ->]; lia.
-  - destruct (steps f gw D (false, t1, t1 + hs - (t1 + hs) mod hs, ri', target t1)) as [[tr' sf']|] eqn:Es; [|discriminate].
+  - destruct (steps f gw D' (false, t1, t1 + hs - (t1 + hs) mod hs, ri', target t1)) as [[tr' sf']|] eqn:Es; [|discriminate].
     injection H as <- <-. destruct (IH _ _ _ Hinv' Es) as (Hsf & Hall & Hcov). cbn [s_prev] in *. split; [exact Hsf|]. split.
     + intros e [<-|He]; cbn [fst snd].
       * split; [reflexivity|]. assert (t1 <= s_prev sf'); [|lia].
         destruct tr' as [|e0 r0]; [destruct f; cbn [steps] in Es; [discriminate|]; destruct (one_step gw _) as [[? ?]|]; [|discriminate];
-          destruct (D <? _); [discriminate|]; destruct (steps f gw D _) as [[? ?]|]; discriminate|].
+          destruct (D' <? _); [discriminate|]; destruct (steps f gw D' _) as [[? ?]|]; discriminate|].
         destruct (Hall e0 (or_introl eq_refl)). lia.
       * destruct (Hall e He). split; [assumption|lia].
     + intros x Hx Hr. cbn [map]. destruct (Z.eq_dec x t1) as [->|Hne1]; [left; reflexivity|]. right. apply Hcov; [exact Hx|].
@@ -176,7 +176,7 @@ Proof.
   intros H0 H. assert (Hinit : winv (init_state gw)).
   { unfold init_state, winv. simpl init_status. repeat split; try lia. unfold target, active.
     destruct (Z.leb_spec ts (-1)); [lia|]. simpl. symmetry. apply (set_nth_id st0 l true false Hl H0). }
-  destruct (window_steps f _ _ _ Hinit H) as (_ & Hall & Hcov). cbn [s_prev init_state] in *. split; [|split].
+  destruct (window_steps D f _ _ _ Hinit H) as (_ & Hall & Hcov). cbn [s_prev init_state] in *. split; [|split].
   - intros e He. destruct (Hall e He) as [E _]. split; [|exact E]. rewrite E. unfold target. apply nth_set_nth. exact Hl.
   - intro Hx. apply Hcov; [left; reflexivity|lia].
   - intro Hx. apply Hcov; [right; reflexivity|lia].
@@ -229,7 +229,7 @@ Proof.
   destruct (window_exact _ _ _ H0 Es) as (Ha & Hb & Hc). rewrite Hend in Hb, Hc.
   split; [intros e He; exact (proj1 (Ha e He))|]. split; [exact Hb|]. split; [exact Hc|].
   (* the last solved time is D *)
-  destruct (window_steps _ _ _ _ Hinit Es) as (_ & Hall & _). cbn [s_prev init_state] in Hall. rewrite Hend in Hall.
+  destruct (window_steps D _ _ _ _ Hinit Es) as (_ & Hall & _). cbn [s_prev init_state] in Hall. rewrite Hend in Hall.
   clear - Es Hall Hend HD Hhs Hrs Hwin Hl.
   assert (Hlast : forall f s tr sf, steps f gw D s = Some (tr, sf) -> In (s_prev sf) (map fst tr)).
   { induction f as [|f IH]; intros s tr0 sf0 H; cbn [steps] in H; [discriminate|].
@@ -239,5 +239,34 @@ Proof.
     destruct (D <? st_time s'); [injection H as <- <-; left; symmetry; exact Hs'|].
     destruct (steps f gw D s') as [[tr1 sf1]|] eqn:E2; [|discriminate]. injection H as <- <-. right. eapply IH. exact E2. }
   rewrite <- Hend. eapply Hlast. exact Es.
+Qed.
+(* the window survives a pause: from ANY state a run of this configuration can be in, a NEW simulator object (rule index recomputed from the
+   last solved time) continuing to any duration D' keeps the target on exactly on [ts, te) and still solves a step at each of the two
+   instants that lie after the pause *)
+Lemma restart_winv s : winv s -> winv (restart_state gw s).
+Proof.
+  destruct s as [[[[first prev] t] ri] st]. unfold winv, restart_state. intros (Hri & Hp & Ht & Hfirst & ->). simpl rule_step.
+  split; [|split; [exact Hp|split; [exact Ht|split; [discriminate|reflexivity]]]].
+  assert (-1 <= prev / rs); [|lia]. apply Z.div_le_lower_bound; lia.
+Qed.
+Theorem window_survives_pause D1 D' f1 tr1 s1 f2 tr2 s2 : nth l st0 true = false ->
+  steps f1 gw D1 (init_state gw) = Some (tr1, s1) -> steps f2 gw D' (restart_state gw s1) = Some (tr2, s2) ->
+  (forall e, In e (tr1 ++ tr2) -> nth l (snd e) false = active (fst e)) /\
+  (forall e, In e tr2 -> s_prev s1 < fst e) /\
+  (forall x, x = ts \/ x = te -> x <= s_prev s2 -> In x (map fst (tr1 ++ tr2))).
+Proof.
+  intros H0 H1 H2. assert (Hinit : winv (init_state gw)).
+  { unfold init_state, winv. simpl init_status. repeat split; try lia. unfold target, active.
+    destruct (Z.leb_spec ts (-1)); [lia|]. simpl. symmetry. apply (set_nth_id st0 l true false Hl H0). }
+  destruct (window_steps D1 _ _ _ _ Hinit H1) as (Hs1 & Hall1 & Hcov1).
+  assert (Hp : s_prev (restart_state gw s1) = s_prev s1) by (destruct s1 as [[[[? ?] ?] ?] ?]; reflexivity).
+  destruct (window_steps D' _ _ _ _ (restart_winv _ Hs1) H2) as (_ & Hall2 & Hcov2). rewrite Hp in Hall2, Hcov2.
+  cbn [s_prev init_state] in Hall1, Hcov1. split; [|split].
+  - intros e He. apply in_app_or in He. destruct He as [He|He]; [destruct (Hall1 e He) as [E _]|destruct (Hall2 e He) as [E _]];
+      rewrite E; unfold target; apply nth_set_nth; exact Hl.
+  - intros e He. destruct (Hall2 e He) as [_ Hr]. lia.
+  - intros x Hx Hle. rewrite map_app. apply in_or_app. destruct (Z_le_gt_dec x (s_prev s1)) as [Hc|Hc].
+    + left. apply Hcov1; [exact Hx|]. destruct Hx as [->| ->]; lia.
+    + right. apply Hcov2; [exact Hx|lia].
 Qed.
 End Window.
